@@ -156,7 +156,8 @@ def c02d(x):
 def describe(tier):
     return {
         "alphabet": "operand texts for {} representative mnemonics (one per row shape incl. specials, inherent, branches): (a) every operand "
-                    "form x values V16+{{65536,70000,-32769,300,4660}} x registers {} x indirection; (b) every token string over {}; "
+                    "form x values V16+{{65536,70000,-32769,300,4660}} x registers {} x indirection, and branch targets L+-n / n+L for n around the short-branch "
+                    "range; (b) every token string over {}; "
                     "all other mnemonics with every token string of length <= {}".format(
                         len(REPS), BAD_REGS, TOKENS, 3 if tier == "thorough" else 2),
         "bound": "token strings of length <= {} ({} for {})".format(4 if tier == "thorough" else 3, 5 if tier == "thorough" else 4, REPS_DEEP),
